@@ -38,7 +38,7 @@ def _save_originals():
         return
     _ORIG.update(
         open=builtins.open, scandir=os.scandir, listdir=os.listdir,
-        unlink=os.unlink, remove=os.remove, mkdir=os.mkdir, rmdir=os.rmdir,
+        os_write=os.write, os_close=os.close, unlink=os.unlink, remove=os.remove, mkdir=os.mkdir, rmdir=os.rmdir,
         utime=os.utime, rename=os.rename, replace=os.replace, os_open=os.open,
         chmod=os.chmod, symlink=os.symlink, link=os.link, truncate=os.truncate,
         stat=os.stat, lstat=os.lstat,
@@ -72,6 +72,7 @@ class Sim:
         self.pool_sigs = []
         self.probes = set()
         self.net_calls = []
+        self.fd_labels = {}
         self.uuid_n = 0
         self.on_crash = None
         self.short_io = cfg.get("short_io")
@@ -452,8 +453,56 @@ def sim_os_open(path, flags, mode=0o777, *, dir_fd=None):
     if label is not None and flags & (os.O_CREAT | os.O_WRONLY | os.O_RDWR | os.O_TRUNC | os.O_APPEND):
         sim.gate("touch", label)
     if dir_fd is None:
-        return _ORIG["os_open"](path, flags, mode)
-    return _ORIG["os_open"](path, flags, mode, dir_fd=dir_fd)
+        fd = _ORIG["os_open"](path, flags, mode)
+    else:
+        fd = _ORIG["os_open"](path, flags, mode, dir_fd=dir_fd)
+    if label is not None and flags & (os.O_WRONLY | os.O_RDWR):
+        sim.fd_labels[fd] = [label, 0]  # raw descriptor under a simulated root: its os.write calls pass the gate
+    return fd
+
+
+def sim_os_write(fd, data):
+    sim = SIM
+    ent = sim.fd_labels.get(fd) if sim is not None else None
+    if ent is None:
+        return _ORIG["os_write"](fd, data)
+    mv = memoryview(data).cast("B")
+    d = sim.gate("write", ent[0], len(mv), ent[1])
+    if d and d[0] == "torn":
+        _ORIG["os_write"](fd, mv[: d[1]])
+        sim.crash()
+    if d and d[0] == "short":
+        mv = mv[: min(len(mv), d[1])]
+    n = _ORIG["os_write"](fd, mv)
+    ent[1] += n
+    return n
+
+
+def sim_os_close(fd):
+    sim = SIM
+    if sim is not None:
+        sim.fd_labels.pop(fd, None)
+    return _ORIG["os_close"](fd)
+
+
+class FailingStdout:
+    """stdout whose reader has gone away: after *limit* characters every write raises EPIPE."""
+
+    def __init__(self, inner, limit, sim):
+        self._inner, self._limit, self._sim, self._n = inner, limit, sim, 0
+
+    def write(self, text):
+        if self._n + len(text) > self._limit:
+            self._sim.fired.append("stdout:EPIPE|<stdout>")
+            raise BrokenPipeError(_errno.EPIPE, "Broken pipe")
+        self._n += len(text)
+        return self._inner.write(text)
+
+    def flush(self):
+        return self._inner.flush()
+
+    def __getattr__(self, name):
+        return getattr(self._inner, name)
 
 
 # ---- clock ------------------------------------------------------------------------------------
@@ -564,6 +613,10 @@ def install(cfg):
     os.symlink = _mut2("symlink", "symlink")
     os.link = _mut2("link", "link")
     os.open = sim_os_open
+    os.write = sim_os_write
+    os.close = sim_os_close
+    if cfg.get("stdout_fail_after") is not None:
+        sys.stdout = FailingStdout(sys.stdout, int(cfg["stdout_fail_after"]), sim)
     if any(f.get("op") == "stat" for f in sim.faults) or any((m.get("at") or {}).get("op") == "stat" for m in sim.mutations):
         # stat-level faults (a directory that can be listed but not searched): only patched when the plan asks for it
         os.stat = _sim_stat("stat")
